@@ -188,15 +188,35 @@ Theorem C20_materialize_defaults_preserves_calls : forall e h r i k fn args tags
 Proof. exact materialize_defaults_preserves_calls. Qed.
 Print Assumptions C20_materialize_defaults_preserves_calls.
 
-(* every Buildable the root still reaches has all its defaults stored *)
+(* a TaggedValue is never touched (its `tags` parameter is supplied by TaggedValueCls.__build__) *)
+Theorem C20_materialize_defaults_tagged : forall e h r i fn args tags,
+  nth_error h i = Some (NBuildable BTagged fn args tags) ->
+  nth_error (materialize_defaults e h r) i = Some (NBuildable BTagged fn args tags).
+Proof. exact materialize_defaults_tagged. Qed.
+Print Assumptions C20_materialize_defaults_tagged.
+
+(* every Buildable the root still reaches, except a TaggedValue (unchanged), is materialized ... *)
 Theorem C20_materialize_defaults_reachable : forall e h r i k fn args tags,
   wf_b e (map (mat_node e) h) = true -> root_ok h r ->
   nth_error h i = Some (NBuildable k fn args tags) ->
   creach e (materialize_defaults e h r) r i ->
   nth_error (materialize_defaults e h r) i =
-    Some (NBuildable k fn (materialize (sig_of e fn) args) tags).
+    Some (NBuildable k fn
+            (match k with BTagged => args | _ => materialize (sig_of e fn) args end) tags).
 Proof. exact materialize_defaults_reachable. Qed.
 Print Assumptions C20_materialize_defaults_reachable.
+
+(* ... and so has all its defaults stored *)
+Theorem C20_materialize_defaults_reachable_total : forall e h r i k fn args tags,
+  wf_b e (map (mat_node e) h) = true -> root_ok h r ->
+  nth_error h i = Some (NBuildable k fn args tags) -> k <> BTagged ->
+  creach e (materialize_defaults e h r) r i ->
+  exists args', nth_error (materialize_defaults e h r) i = Some (NBuildable k fn args' tags) /\
+    forall j p d, nth_error (sig_of e fn) j = Some p -> pdefault p = Some d -> pfactory p = false ->
+      (pk p = PosOnly \/ pk p = PosOrKw \/ pk p = KwOnly) ->
+      smem args' (match pk p with PosOnly => kpos j | _ => KName (pname p) end) = true.
+Proof. exact materialize_defaults_reachable_total. Qed.
+Print Assumptions C20_materialize_defaults_reachable_total.
 
 Theorem C20_materialize_defaults_idempotent : forall e h r,
   materialize_defaults e (materialize_defaults e h r) r = materialize_defaults e h r.
